@@ -82,7 +82,9 @@ def run_unit(args):
                 try:
                     r = thunk()
                 except Exception as e:  # noqa: BLE001
-                    r = "check crashed: %r" % (e,)
+                    # the bounded check itself failed: a checker error, never a violation
+                    out["error"] = (out["error"] or "") + "bounded check %s crashed on %s: %r\n" % (label, str(values)[:200], e)
+                    r = None
                 if r is not None and sum(1 for v in bd["violations"] if v["label"] == label) < 2:
                     bd["violations"].append({"label": label, "region": region, "values": contract.jsonable(values), "what": r[:400]})
         except Exception:  # noqa: BLE001
